@@ -1,3 +1,4 @@
 import Lemmas.Exec
 import Lemmas.ExecInv
 import Lemmas.ExecDir
+import Lemmas.Pending
